@@ -1338,7 +1338,7 @@ func (p *Parser) evaluateParams(ctx context) ([]Variable, error) {
 		name := nameToken.Value()
 		_, exists := ctx.findVariable(name, p.prefix, false)
 
-		if exists {
+		if exists || slices.ContainsFunc(params, func(param Variable) bool { return param.Name() == name }) {
 			return params, fmt.Errorf("scope already contains a variable with the name %s", name)
 		}
 		valueType, err := p.evaluateValueType()
